@@ -585,6 +585,51 @@ func ruleHeadKeyFromChildBranch(r *Run) {
 					}
 					continue
 				}
+				// through a local: head := branch; if head == "" { head = "master" }; key = root + head
+				if phi, isPhi := stripConv(bo.Y).(*ssa.Phi); isPhi {
+					okPhi := true
+					for i, e := range phi.Edges {
+						if stripConv(e) == branch {
+							continue
+						}
+						c, isC := e.(*ssa.Const)
+						if !isC || c.Value == nil || c.Value.Kind() != constant.String || constant.StringVal(c.Value) != "master" {
+							okPhi = false
+							continue
+						}
+						pred := phi.Block().Preds[i]
+						fromEmpty := false
+						for _, b2 := range f.Blocks {
+							ifi, isIf := b2.Instrs[len(b2.Instrs)-1].(*ssa.If)
+							if !isIf {
+								continue
+							}
+							cmp, isCmp := ifi.Cond.(*ssa.BinOp)
+							if !isCmp || (cmp.Op != token.EQL && cmp.Op != token.NEQ) || stripConv(cmp.X) != branch {
+								continue
+							}
+							cy, isCy := cmp.Y.(*ssa.Const)
+							if !isCy || cy.Value == nil || cy.Value.Kind() != constant.String || constant.StringVal(cy.Value) != "" {
+								continue
+							}
+							e0 := 0
+							if cmp.Op == token.NEQ {
+								e0 = 1
+							}
+							s := b2.Succs[e0]
+							if (s == pred && len(s.Preds) == 1) || (b2 == pred && s == phi.Block() && b2.Succs[1-e0] != phi.Block()) {
+								fromEmpty = true
+							}
+						}
+						if !fromEmpty {
+							okPhi = false
+						}
+					}
+					if !okPhi {
+						bad = "the key's suffix is chosen between values other than the child's branch and \"master\" for the empty branch"
+					}
+					continue
+				}
 				if stripConv(bo.Y) != branch {
 					bad = "the key is built from " + bo.Y.Name() + ", not from the value stored into the child's branch"
 				}
@@ -4555,42 +4600,45 @@ func ruleNoStaleComponentAfterStore(r *Run) {
 	}
 	n := 0
 	bad := ""
-	for _, b := range f.Blocks {
-		for _, in := range b.Instrs {
-			ld, ok := in.(*ssa.UnOp)
-			if !ok || ld.Op != token.MUL {
-				continue
-			}
-			key := componentKey(ld.X)
-			if !strings.Contains(key, "start") && !strings.Contains(key, "length") {
-				continue
-			}
-			// stores to the same place after the load
-			for _, b2 := range f.Blocks {
-				for _, x := range b2.Instrs {
-					st, ok := x.(*ssa.Store)
-					if !ok || componentKey(st.Addr) != key {
-						continue
-					}
-					if findPath(f, ld, nil, func(y ssa.Instruction) bool { return y == ssa.Instruction(st) }, nil) == nil {
-						continue
-					}
-					n++
-					// a use of the loaded value reachable from the store (other than the store's own operand)
-					for _, ref := range *ld.Referrers() {
-						if ref == ssa.Instruction(st) {
+	top := f
+	for _, f := range withHelpers(top) { // the per-run clipping may sit in a helper (RLE.clipToBounds)
+		for _, b := range f.Blocks {
+			for _, in := range b.Instrs {
+				ld, ok := in.(*ssa.UnOp)
+				if !ok || ld.Op != token.MUL {
+					continue
+				}
+				key := componentKey(ld.X)
+				if !strings.Contains(key, "start") && !strings.Contains(key, "length") {
+					continue
+				}
+				// stores to the same place after the load
+				for _, b2 := range f.Blocks {
+					for _, x := range b2.Instrs {
+						st, ok := x.(*ssa.Store)
+						if !ok || componentKey(st.Addr) != key {
 							continue
 						}
-						// the value feeding the store itself (x - (min - x)) is computed before it
-						if rv, ok := ref.(ssa.Value); ok && dataDeps(st.Val)[rv] {
+						if findPath(f, ld, nil, func(y ssa.Instruction) bool { return y == ssa.Instruction(st) }, nil) == nil {
 							continue
 						}
-						if findPath(f, st, nil, func(y ssa.Instruction) bool { return y == ref }, nil) != nil {
-							// in a loop every instruction reaches every other through the back edge: demand that the
-							// use is reached without passing the load again
-							p := findPath(f, st, func(y ssa.Instruction) bool { return y == ssa.Instruction(ld) }, func(y ssa.Instruction) bool { return y == ref }, nil)
-							if p != nil {
-								bad = fmt.Sprintf("%s loaded at %s, stored at %s, used at %s", key, w.pos(ld.Pos()), w.pos(st.Pos()), w.pos(ref.Pos()))
+						n++
+						// a use of the loaded value reachable from the store (other than the store's own operand)
+						for _, ref := range *ld.Referrers() {
+							if ref == ssa.Instruction(st) {
+								continue
+							}
+							// the value feeding the store itself (x - (min - x)) is computed before it
+							if rv, ok := ref.(ssa.Value); ok && dataDeps(st.Val)[rv] {
+								continue
+							}
+							if findPath(f, st, nil, func(y ssa.Instruction) bool { return y == ref }, nil) != nil {
+								// in a loop every instruction reaches every other through the back edge: demand that the
+								// use is reached without passing the load again
+								p := findPath(f, st, func(y ssa.Instruction) bool { return y == ssa.Instruction(ld) }, func(y ssa.Instruction) bool { return y == ref }, nil)
+								if p != nil {
+									bad = fmt.Sprintf("%s loaded at %s, stored at %s, used at %s", key, w.pos(ld.Pos()), w.pos(st.Pos()), w.pos(ref.Pos()))
+								}
 							}
 						}
 					}
